@@ -1,9 +1,13 @@
 #!/usr/bin/env python3
-"""writes seeded/<id>-m5..m7/meta.json from tools/r3_meta_table.py, confirm.txt and the check outputs in a results directory"""
+"""writes seeded/<id>-m5..m7/meta.json from tools/r4_meta_table.py, confirm.txt and the check outputs in a results directory"""
 import json, os, re, sys
 sys.path.insert(0, os.path.dirname(__file__))
-from r3_meta_table import T, ADDED, CAUGHT
-res = sys.argv[1] if len(sys.argv) > 1 else "/tmp/r3b"
+from r4_meta_table import T
+try:
+    from r4_meta_table import ADDED, CAUGHT, NOTE
+except ImportError:
+    ADDED, CAUGHT, NOTE = {}, {}, {}
+res = sys.argv[1] if len(sys.argv) > 1 else "/tmp/r4"
 root = os.path.join(os.path.dirname(__file__), "..", "seeded")
 for name, (change, needs) in sorted(T.items()):
     d = os.path.join(root, name)
@@ -20,10 +24,12 @@ for name, (change, needs) in sorted(T.items()):
         "ran": [f"tools/confirm_mutant.sh seeded/{name}", f"tools/try_mutant_wt.sh seeded/{name}/patch.diff {name.split('-')[0]}  (patch applied in a scratch worktree of /repo, quick check through VF_REPO) -> {first}"]
                + ([f"after strengthening: tools/try_mutant_wt.sh seeded/{name}/patch.diff {name.split('-')[0]} --only '<added family>|selftest' -> exit=1, VIOLATION"] if name in CAUGHT else []),
         "caught_by": CAUGHT.get(name) or ", ".join(dict.fromkeys(viol[:4])) or "NOT CAUGHT",
-        "origin": "third-round independent sub-agent (property text + scratch worktree + the change ideas of rounds 1-2 named as off-limits; three changes per property)",
+        "origin": "fourth-round independent sub-agent (property text + scratch worktree + the change ideas of rounds 1-3 named as off-limits; three changes per property)",
     }
     if name in ADDED:
         meta["missed_at_first"] = True
         meta["added_after_miss"] = ADDED[name]
+    if name in NOTE:
+        meta["note"] = NOTE[name]
     json.dump(meta, open(os.path.join(d, "meta.json"), "w"), indent=1, ensure_ascii=False)
     print(name, meta["caught_by"][:100])
